@@ -4,6 +4,13 @@ import SelenModel.Lemmas.Kinds.Linear
 import SelenModel.Lemmas.Kinds.Reif
 import SelenModel.Lemmas.Kinds.Bool
 import SelenModel.Lemmas.Kinds.AbsMinMax
+import SelenModel.Lemmas.Kinds.MulDiv
+import SelenModel.Lemmas.Kinds.Modulo
+import SelenModel.Lemmas.Kinds.Simple
+import SelenModel.Lemmas.Kinds.CountCard
+import SelenModel.Lemmas.Kinds.Element
+import SelenModel.Lemmas.Kinds.Table
+import SelenModel.Lemmas.Kinds.AllDiff
 /-
 One contract theorem for all modelled propagator kinds: `PK.contract_all`.
 
@@ -11,6 +18,14 @@ One contract theorem for all modelled propagator kinds: `PK.contract_all`.
 *checked* kinds: `neq` — a no-op propagator in the code — and linear rows without any non-zero
 coefficient are excluded; they are recorded findings).  `PK.boolVars` are the variables the
 propagator treats as booleans; the contract holds on stores where those have domains ⊆ {0,1}.
+
+Kinds added later (mul, div, modulo, allEqual, between, count, cardinality, element, table,
+if-then-else, allDiff): `PK.WFs` is the *static* well-formedness of every kind, `PK.StoreOk` the additional
+*store* precondition of `div` (divisor range excludes 0) and `modulo` (non-negative dividend,
+positive divisor, no boundary sampling); `PK.contract_inv` is the general contract theorem under a
+store invariant implying both, `StoreInv`/`closed_storeInv`/`allContract_inv` package it for the
+engine theorems.  `PK.WFk`/`PK.contract_all` keep their signature: for `div`/`modulo` `WFk` asks the
+store precondition for *every* store (i.e. constant operands).
 -/
 namespace Selen
 
@@ -25,6 +40,34 @@ def PK.boolVars : PK → List Nat
   | .boolXor _ _ r => [r]
   | _ => []
 
+/-- static well-formedness of a posted propagator (all modelled kinds) -/
+def PK.WFs : PK → Prop
+  | .leq x y => x.WF ∧ y.WF
+  | .eq x y => x.WF ∧ y.WF
+  | .neq _ _ => False
+  | .add x y _ => x.WF ∧ y.WF
+  | .sum xs _ => ∀ x ∈ xs, x.WF
+  | .linEq cs xs _ => cs.length = xs.length ∧ ∃ i, i < xs.length ∧ cs.getD i 0 ≠ 0
+  | .linLe cs xs _ => cs.length = xs.length ∧ ∃ i, i < xs.length ∧ cs.getD i 0 ≠ 0
+  | .linNe cs xs _ => cs.length = xs.length
+  | .linEqReif cs xs _ _ => cs.length = xs.length ∧ ∃ i, i < xs.length ∧ cs.getD i 0 ≠ 0
+  | .linLeReif cs xs _ _ => cs.length = xs.length ∧ ∃ i, i < xs.length ∧ cs.getD i 0 ≠ 0
+  | .linNeReif cs xs _ _ => cs.length = xs.length ∧ ∃ i, i < xs.length ∧ cs.getD i 0 ≠ 0
+  | .abs x _ => x.WF
+  | .mul x y _ => x.WF ∧ y.WF ∧ x.NoStep ∧ y.NoStep
+  | .div x y _ => x.WF ∧ y.WF ∧ y.NoStep
+  | .modulo x y _ => x.WF ∧ y.WF
+  | .allEqual xs => xs ≠ []
+  | .count _ t _ => t.WF
+  | .table xs ts => ∀ t ∈ ts, t.length = xs.length
+  | _ => True
+
+/-- store precondition of a kind (beyond boolean domains) -/
+def PK.StoreOk : PK → Store → Prop
+  | .div _ y _ => KMulDiv.DivOk y
+  | .modulo x y _ => KModulo.ModOk x y
+  | _ => fun _ => True
+
 def PK.WFk : PK → Prop
   | .leq x y => x.WF ∧ y.WF
   | .eq x y => x.WF ∧ y.WF
@@ -38,7 +81,25 @@ def PK.WFk : PK → Prop
   | .linLeReif cs xs _ _ => cs.length = xs.length ∧ ∃ i, i < xs.length ∧ cs.getD i 0 ≠ 0
   | .linNeReif cs xs _ _ => cs.length = xs.length ∧ ∃ i, i < xs.length ∧ cs.getD i 0 ≠ 0
   | .abs x _ => x.WF
+  | .mul x y _ => x.WF ∧ y.WF ∧ x.NoStep ∧ y.NoStep
+  | .div x y _ => (x.WF ∧ y.WF ∧ y.NoStep) ∧ ∀ st, KMulDiv.DivOk y st
+  | .modulo x y _ => (x.WF ∧ y.WF) ∧ ∀ st, KModulo.ModOk x y st
+  | .allEqual xs => xs ≠ []
+  | .count _ t _ => t.WF
+  | .table xs ts => ∀ t ∈ ts, t.length = xs.length
   | _ => True
+
+theorem KModulo.modOk_nonzero {x y : IView} {st : Store} (h : KModulo.ModOk x y st) :
+    PK.rangeHasZero (y.minRaw st) (y.maxRaw st) = false := by
+  have := h.2.1
+  simp only [PK.rangeHasZero, Bool.and_eq_false_iff, decide_eq_false_iff_not]
+  omega
+
+theorem PK.wfs_of_wfk (k : PK) (h : k.WFk) : k.WFs := by
+  cases k <;> first | exact h | exact h.1
+
+theorem PK.storeOk_of_wfk (k : PK) (h : k.WFk) (st : Store) : k.StoreOk st := by
+  cases k <;> first | exact h.2 st | trivial
 
 /-- the listed variables have domains ⊆ {0,1} -/
 def BoolStore (bs : List Nat) (st : Store) : Prop := ∀ b ∈ bs, ∀ w ∈ st b, w = 0 ∨ w = 1
@@ -50,8 +111,10 @@ theorem boolStore_dmax {bs : List Nat} {st : Store} (h : BoolStore bs st) {b : N
     (hne : st b ≠ []) : (st b).dmax ≤ 1 := by
   rcases h b hb _ (Dom.dmax_mem _ hne) with e | e <;> omega
 
-theorem PK.contract_all (k : PK) (hwf : k.WFk) (P : Store → Prop)
-    (hP : ∀ st, P st → BoolStore k.boolVars st) : PKContract k P := by
+/-- **the contract of every modelled kind**, relative to a store invariant `P` that makes the
+boolean variables boolean and implies the kind's store precondition -/
+theorem PK.contract_inv (k : PK) (hwf : k.WFs) (P : Store → Prop)
+    (hP : ∀ st, P st → BoolStore k.boolVars st) (hS : ∀ st, P st → k.StoreOk st) : PKContract k P := by
   cases k with
   | leq x y => exact pkContract_of_contract' P (PK.contract_leq x y hwf.1 hwf.2)
   | eq x y => exact pkContract_of_contract' P (PK.contract_eq x y hwf.1 hwf.2)
@@ -115,5 +178,87 @@ theorem PK.contract_all (k : PK) (hwf : k.WFk) (P : Store → Prop)
   | min xs r => exact pkContract_of_contract' P (KAbsMinMax.PK.contract_min xs r)
   | max xs r => exact pkContract_of_contract' P (KAbsMinMax.PK.contract_max xs r)
   | noop => exact pkContract_noop P
+  | mul x y s =>
+    exact pkContract_of_contract' P (KMulDiv.PK.contract_mul x y s hwf.1 hwf.2.1 hwf.2.2.1 hwf.2.2.2)
+  | div x y s =>
+    exact ⟨fun c a _ hm hs => KMulDiv.PK.sound_div x y s hwf.1 hwf.2.1 hwf.2.2 c a hm hs,
+           KMulDiv.PK.contracting_div x y s hwf.2.2,
+           fun c c' a hp hf hm e => KMulDiv.PK.checking_div x y s c c' a (hS _ hp) hf hm e,
+           KMulDiv.PK.resp_div x y s hwf.2.2⟩
+  | modulo x y s =>
+    exact ⟨fun c a hp hm hs => KModulo.PK.sound_modulo x y s hwf.1 hwf.2 c a (hS _ hp) hm hs,
+           KModulo.PK.contracting_modulo x y s,
+           fun c c' a hp hf hm e => KModulo.PK.checking_modulo x y s hwf.1 hwf.2 c c' a
+              (KModulo.modOk_nonzero (hS _ hp)) hf hm e,
+           KModulo.PK.resp_modulo x y s⟩
+  | allEqual xs => exact pkContract_of_contract' P (KSimple.PK.contract_allEqual xs hwf)
+  | between l m u => exact pkContract_of_contract' P (KSimple.PK.contract_between l m u)
+  | count xs t c => exact pkContract_of_contract' P (KCountCard.PK.contract_count xs t c hwf)
+  | card ty xs tv n => exact pkContract_of_contract' P (KCountCard.PK.contract_card ty xs tv n)
+  | element arr idx val => exact pkContract_of_contract' P (KElement.PK.contract_element arr idx val)
+  | table xs ts => exact pkContract_of_contract' P (KTable.PK.contract_table xs ts hwf)
+  | ite cop cv cval top tv tval els =>
+    exact pkContract_of_contract' P (KSimple.PK.contract_ite cop cv cval top tv tval els)
+  | allDiff xs => exact pkContract_of_contract' P (KAllDiff.PK.contract_allDiff xs)
+
+theorem PK.contract_all (k : PK) (hwf : k.WFk) (P : Store → Prop)
+    (hP : ∀ st, P st → BoolStore k.boolVars st) : PKContract k P :=
+  PK.contract_inv k (PK.wfs_of_wfk k hwf) P hP (fun st _ => PK.storeOk_of_wfk k hwf st)
+
+/-! ### a store invariant for whole models (usable as `P` in the engine theorems) -/
+
+/-- non-empty domains, boolean variables boolean, every propagator's store precondition -/
+def StoreInv (ps : List PK) (st : Store) : Prop :=
+  NonEmpty st ∧ BoolStore (ps.flatMap PK.boolVars) st ∧ ∀ k ∈ ps, k.StoreOk st
+
+theorem PK.storeOk_good (k : PK) (hwf : k.WFs) {T : List Nat} {c c' : Ctx} (g : Good T c c')
+    (hne : NonEmpty c.st) (h : k.StoreOk c.st) : k.StoreOk c'.st := by
+  cases k with
+  | div x y s => exact KMulDiv.divOk_good y hwf.2.1 g hne h
+  | modulo x y s => exact KModulo.PK.modOk_good x y hwf.1 hwf.2 g hne h
+  | _ => trivial
+
+theorem closed_storeInv (ps : List PK) (hwf : ∀ k ∈ ps, k.WFs) : Closed (StoreInv ps) :=
+  ⟨fun _ _ _ h g => ⟨g.ne h.1, (closed_boolStore _).step _ _ _ h.2.1 g,
+    fun k hk => PK.storeOk_good k (hwf k hk) g h.1 (h.2.2 k hk)⟩⟩
+
+theorem allContract_inv (ps : List PK) (hwf : ∀ k ∈ ps, k.WFs) : AllContract ps (StoreInv ps) :=
+  fun k hk => PK.contract_inv k (hwf k hk) _
+    (fun _ h b hb => h.2.1 b (List.mem_flatMap.2 ⟨k, hk, hb⟩)) (fun _ h => h.2.2 k hk)
+
+/-- **C05 at the engine level for all modelled kinds**: propagation to fixpoint of statically
+well-formed propagators, from a store satisfying `StoreInv`, never fails while a solution exists,
+keeps every solution and the invariant (instance of `propagate_sound`) -/
+theorem propagate_sound_inv (ps : List PK) (hwf : ∀ k ∈ ps, k.WFs) (pol : Policy) (a : Asg)
+    (ha : ∀ k ∈ ps, PK.holds a k = true) (fuel : Nat) (q : List Nat) (st : Store)
+    (hst : StoreInv ps st) (hm : Mem st a) :
+    match propagate ps pol fuel q st with
+    | .fail => False
+    | .fuel => True
+    | .ok st' => Mem st' a ∧ StoreInv ps st' :=
+  propagate_sound ps pol _ (closed_storeInv ps hwf) (allContract_inv ps hwf) a ha fuel q st hst hm
+
+/-- the hypotheses are satisfiable for a model with `div` and `modulo` over variables:
+`x / y = s ∧ x % y = s` with `x ∈ {4,6}`, `y ∈ {2,3}`, `s ∈ {0,2,3}` -/
+example :
+    let ps : List PK := [.div (.var 0) (.var 1) 2, .modulo (.var 0) (.var 1) 2]
+    let st : Store := fun i => [[4, 6], [2, 3], [0, 2, 3]].getD i [1]
+    (∀ k ∈ ps, k.WFs) ∧ StoreInv ps st := by
+  refine ⟨?_, ?_, ?_, ?_⟩
+  · intro k hk
+    simp only [List.mem_cons, List.not_mem_nil, or_false] at hk
+    rcases hk with rfl | rfl <;> simp [PK.WFs, IView.WF, IView.NoStep]
+  · intro i
+    match i with
+    | 0 => simp
+    | 1 => simp
+    | 2 => simp
+    | _ + 3 => simp
+  · intro b hb; simp [PK.boolVars] at hb
+  · intro k hk
+    simp only [List.mem_cons, List.not_mem_nil, or_false] at hk
+    rcases hk with rfl | rfl
+    · show KMulDiv.DivOk _ _; unfold KMulDiv.DivOk; decide
+    · show KModulo.ModOk _ _ _; unfold KModulo.ModOk; decide
 
 end Selen
